@@ -134,6 +134,31 @@ def rule_keys(model, rep):
     rep.check(returns(model.func(T, "TOTP.hex_key")) == ["bascii_to_str(base64.b16encode(self.key)).lower()"], R, site("TOTP.hex_key"), "hex lower", "hex_key is the lower-case hex of the raw key")
 
 
+def rule_key_caches(model, rep):
+    """the token is computed from a keyed HMAC compiled once and cached on the object; every attribute that caches something derived from
+    `self.key` must be reset by the public `key` setter, or tokens keep coming from the previous key"""
+    from pv.q import must_assign
+    R = "C13.e-key-derived-caches"
+    cd = model.cls(T, "TOTP")
+    caches = {}
+    for fn in [x for x in cd.body if isinstance(x, ast.FunctionDef)]:
+        for a in walk_no_nested(fn):
+            if isinstance(a, ast.Assign) and any(isinstance(n, ast.Attribute) and ast.unparse(n) == "self.key" for n in ast.walk(a.value)):
+                for t in a.targets:
+                    if isinstance(t, ast.Attribute) and ast.unparse(t.value) == "self" and t.attr.startswith("_") and t.attr != "_key":
+                        caches[t.attr] = f"{fn.name}: {ast.unparse(a)[:70]}"
+    setter = next((x for x in cd.body if isinstance(x, ast.FunctionDef) and x.name == "key" and any(ast.unparse(d) == "key.setter" for d in x.decorator_list)), None)
+    if setter is None or not caches:
+        rep.undecided(R, site("TOTP.key.setter"), f"setter / key-derived caches not found (caches={sorted(caches)})")
+        return
+    for attr, where in sorted(caches.items()):
+        ok, bad = must_assign(setter, f"self.{attr}")
+        rep.check(ok, R, site("TOTP.key.setter") + f" {attr}", f"{attr} cached in {where}; setter returns without resetting it at lines {bad}" if bad else f"{attr} reset ({where})",
+                  f"assigning a new key resets the cache `{attr}` derived from the old one",
+                  witness="otp = TOTP(key1); otp.generate(t); otp.key = key2; otp.generate(t).token is still the RFC 6238 value for key1")
+    rep.minimum(R, 2)
+
+
 def rule_hmac(model, rep):
     """RFC 2104 key preparation in passlib.crypto.digest.compile_hmac (TOTP's HMAC)"""
     from . import prim
@@ -145,4 +170,5 @@ def run(model, rep):
     rule_kernel(model, rep)
     rule_time(model, rep)
     rule_keys(model, rep)
+    rule_key_caches(model, rep)
     rule_hmac(model, rep)
